@@ -11,6 +11,6 @@ def foo(x: f32[4]):
         x[i] = 1.0
 try:
     a = foo.body().anchor()
-    verdict("F25", not isinstance(a, InvalidCursor), f"anchor of the top-level block = {a!r}")
+    verdict("F_C16_block_anchor", not isinstance(a, InvalidCursor), f"anchor of the top-level block = {a!r}")
 except Exception as e:
-    verdict("F25", True, f"{type(e).__name__}: {e}  (parent() gives {foo.body().parent()!r})")
+    verdict("F_C16_block_anchor", True, f"{type(e).__name__}: {e}  (parent() gives {foo.body().parent()!r})")
